@@ -289,7 +289,47 @@ def syntactic(E):
                   or (isinstance(c.func, ast.Name) and c.func.id in destructive)})
     E.syntactic_obligation("writeXMLReports deletes, renames or truncates nothing in the report directory (reports written earlier in "
                            "the same run, by this or by a child process, stay)", not bad, props=('C17',))
+    # one report file per suite: the file name is the suite's own name (the key of _testSuites) plus constant text, an
+    # injective function of the key -- two suites can never be written to the same file (the later would replace the earlier)
+    ok, why = False, 'no loop over self._testSuites.items() with an open(<file name>) in it'
+    for loop in [n for n in ast.walk(w) if isinstance(n, ast.For) and ast.unparse(n.iter) == 'self._testSuites.items()'
+                 and isinstance(n.target, ast.Tuple) and isinstance(n.target.elts[0], ast.Name)]:
+        key = loop.target.elts[0].id
+        opened = [c.args[0] for c in ast.walk(loop) if isinstance(c, ast.Call) and c.args
+                  and (ast.unparse(c.func) == 'open' or ast.unparse(c.func).endswith('.open'))]
+        for arg in opened:
+            expr = arg
+            if isinstance(arg, ast.Name):
+                defs = [a.value for a in ast.walk(loop) if isinstance(a, ast.Assign)
+                        and any(isinstance(t, ast.Name) and t.id == arg.id for t in a.targets)]
+                expr = defs[0] if len(defs) == 1 else None
+            ok, why = _injective_in(expr, key)
+            if not ok:
+                break
+    E.syntactic_obligation("writeXMLReports writes every suite to a file of its own: the file name is the suite name itself plus "
+                           "constant text (no two suites share a report file)", ok, detail=why, props=('C17',))
     xml_char_class_lemma(E)
+
+
+def _injective_in(expr, key):
+    """expr is  <dir> / f'<const>{key}<const>'  or  <dir> / (key + '<const>')  (or os.path.join(<dir>, the same))"""
+    if expr is None:
+        return False, 'the file name is assigned more than once or not in the loop'
+    if isinstance(expr, ast.BinOp) and isinstance(expr.op, ast.Div):
+        name = expr.right
+    elif isinstance(expr, ast.Call) and ast.unparse(expr.func) == 'os.path.join' and len(expr.args) == 2:
+        name = expr.args[1]
+    else:
+        return False, 'file name expression %s is not <directory> / <name>' % ast.unparse(expr)[:60]
+    if isinstance(name, ast.JoinedStr):
+        fv = [v for v in name.values if isinstance(v, ast.FormattedValue)]
+        if len(fv) == 1 and isinstance(fv[0].value, ast.Name) and fv[0].value.id == key and fv[0].conversion == -1 \
+                and fv[0].format_spec is None:
+            return True, ''
+    if isinstance(name, ast.BinOp) and isinstance(name.op, ast.Add) and isinstance(name.left, ast.Name) and name.left.id == key \
+            and isinstance(name.right, ast.Constant):
+        return True, ''
+    return False, 'the file name %s is not the suite name itself plus constant text' % ast.unparse(name)[:60]
 
 
 def is_xml_char(c):
